@@ -1,7 +1,7 @@
 (* C16 — theorems (statements only; proofs are in Proofs*.v) *)
 From Coq Require Import List NArith Bool Arith.
 From GixV.Base Require Import Bytes Outcome.
-From GixV.C16 Require Import Model Spec ProofsMerge ProofsBasic ProofsSingle ProofsPacked ProofsWitness.
+From GixV.C16 Require Import Model Spec ProofsMerge ProofsBasic ProofsSingle ProofsPacked ProofsMulti ProofsWitness.
 Import ListNotations.
 
 (* ---- packed-refs: the merge of the sorted buffer with the sorted edits ----------------------------- *)
@@ -78,6 +78,21 @@ Theorem single_edit_cas_refines_map_partial :
     end.
 Proof. exact single_edit_refines. Qed.
 
+(* Several edits in one transaction, none dereferencing, on a store without packed-refs, all names (loose
+   files and edit names) from a set without directory/file relation: the transaction is all-or-nothing.  It
+   commits exactly when the map accepts it (no name twice, every expectation holds against the state BEFORE
+   the transaction); then every name reads like the new map; otherwise it fails in prepare and the store is
+   the one it was.  Covers the `for cid` loop of prepare_inner, both loops of commit_inner, every expectation
+   kind, updates, deletions and reflog-only edits mixed. *)
+Theorem multi_edit_txn_refines_map_partial :
+  forall (lo : list (bytes * target)) (edits : list refedit) (names : list bytes),
+    Forall simple edits -> nodf names -> incl (keys lo) names -> incl (map re_name edits) names ->
+    match spec_txn (observe (mkStore lo None)) edits with
+    | Some v' => exists st', step (mkStore lo None) (Txn DeletionsOnly true edits) = (ROk, st') /\ agrees st' v'
+    | None => exists err, step (mkStore lo None) (Txn DeletionsOnly true edits) = (RPrepareErr err, mkStore lo None)
+    end.
+Proof. exact multi_edit_refines. Qed.
+
 (* The same with a packed-refs file present (sorted), for a name under refs/heads/ and an edit that changes the
    reference (RefLog::AndReference): the current value is the loose one, else the packed one; an update is
    written as loose reference over the packed entry, a deletion removes the loose file and rewrites
@@ -147,3 +162,15 @@ Example packed_delete_example :
   step (mkStore pk_lo (Some pk_pk)) (Txn DeletionsOnly true [mkRefEdit pk_ref_a pk_change false])
   = (ROk, mkStore pk_lo (Some [(pk_ref_t, x32)])).
 Proof. exact pk_step. Qed.
+Example multi_edit_hypotheses_satisfiable :
+  Forall simple mu_edits /\ nodf mu_names /\ incl (keys mu_lo) mu_names /\ incl (map re_name mu_edits) mu_names.
+Proof. exact mu_hyps. Qed.
+Example multi_edit_commits :
+  step (mkStore mu_lo None) (Txn DeletionsOnly true mu_edits)
+  = (ROk, mkStore [(bs "refs/tags/t", Obj x33); (bs "refs/heads/a", Obj x32)] None).
+Proof. exact mu_step. Qed.
+Example multi_edit_one_failing_expectation_refuses_all :
+  step (mkStore mu_lo None)
+       (Txn DeletionsOnly true (mu_edits ++ [mkRefEdit (bs "refs/heads/s") (Update AndRef PMustExist (Obj x31)) false]))
+  = (RPrepareErr EMustExist, mkStore mu_lo None).
+Proof. exact mu_refused. Qed.
